@@ -3,21 +3,82 @@
    (Gen.SharedRes, Gen.CacheRes, Gen.InputCheck).  The launch half (worker started with exactly
    these cores / threads / GPUs / flags / extra arguments in this cwd) is C16_srun_launch /
    C16_mpiexec_launch applied to the effective values. *)
-From Coq Require Import ZArith String List Bool Lia.
+From Coq Require Import ZArith String List Bool.
 From EL Require Import Base.Dec Base.PyLib Proofs.DictFacts Proofs.C10Proofs Gen.InputCheck Gen.SharedRes Gen.CacheRes.
 Import ListNotations.
 Local Open Scope string_scope.
 
+(* precedence, per-call-process executors: under every key other than the four the library
+   forces itself, the worker is launched with the call's own value if there is one, else the
+   executor's *)
+Theorem C10_precedence :
+  forall ek ecores rd q sp hl x,
+    NoDup (keys rd) ->
+    x <> "future_queue" -> x <> "spawner" -> x <> "hostname_localhost" -> x <> "init_function" ->
+    assoc x (aupdate (aupdate ek (eff_rd ecores rd)) (forced q sp hl))
+    = match assoc x (eff_rd ecores rd) with Some v => Some v | None => assoc x ek end.
+Proof. exact effective_lookup. Qed.
+Print Assumptions C10_precedence.
+
+(* where eff_rd is the call's dictionary itself, except for the documented rule that a per-call
+   cores = 1 (or no cores) means the executor's cores *)
+Theorem C10_call_values_unchanged :
+  forall ecores rd x, x <> "cores" -> assoc x (eff_rd ecores rd) = assoc x rd.
+Proof. exact eff_rd_other. Qed.
+Print Assumptions C10_call_values_unchanged.
+
+Theorem C10_cores_rule :
+  forall ecores rd, cores_is_int rd ->
+    assoc "cores" (eff_rd ecores rd) =
+      match assoc "cores" rd with
+      | Some (VInt c) => if ((c =? 1)%Z && (ecores >=? 1)%Z) then Some (VInt ecores) else Some (VInt c)
+      | _ => Some (VInt ecores)
+      end.
+Proof. exact eff_rd_cores. Qed.
+Print Assumptions C10_cores_rule.
+
+(* file mode: the call's values over the executor's; neither dictionary is modified *)
+Theorem C10_file_mode_merge :
+  forall td rd rdx,
+    assoc "resource_dict" td = Some (sdict rd) -> NoDup (keys rdx) ->
+    file_mode_resources (sdict td) (sdict rdx)
+    = Ok (VTuple [sdict (aupdate rd (List.filter (fun p => negb (match assoc (fst p) rd with Some _ => true | None => false end)) rdx));
+                  sdict td; sdict rdx]).
+Proof. exact file_mode_merge. Qed.
+Print Assumptions C10_file_mode_merge.
+
+Theorem C10_file_mode_precedence :
+  forall rd rdx x,
+    NoDup (keys rdx) ->
+    assoc x (aupdate rd (List.filter (fun p => negb (match assoc (fst p) rd with Some _ => true | None => false end)) rdx))
+    = match assoc x rd with Some v => Some v | None => assoc x rdx end.
+Proof. exact file_mode_lookup. Qed.
+Print Assumptions C10_file_mode_precedence.
+
 (* block allocation refuses every non-empty per-call dictionary *)
 Theorem C10_block_rejects :
-  forall p rd, broker_submit_checks (sdict (p :: rd)) = Err "ValueError".
-Proof.
-  intros p rd. unfold broker_submit_checks, check_resource_dict_is_empty. cbn -[Z.gtb Z.of_nat].
-  assert (E : (Z.of_nat (S (List.length (kvs rd))) >? 0)%Z = true) by (apply Z.gtb_lt; lia).
-  rewrite E. reflexivity.
-Qed.
+  forall rd, rd <> [] -> broker_submit_checks (sdict rd) = Err "ValueError".
+Proof. exact broker_rejects. Qed.
 Print Assumptions C10_block_rejects.
 
 Theorem C10_block_accepts_empty : broker_submit_checks (sdict []) = Ok (VTuple [sdict []]).
-Proof. reflexivity. Qed.
+Proof. exact broker_accepts_empty. Qed.
 Print Assumptions C10_block_accepts_empty.
+
+(* the regenerated _submit_function_to_separate_process hands exactly this merged dictionary to
+   the worker thread (and from there to the spawner), registers cores x threads slots, and
+   returns normally; the caller's dictionaries are not among the objects it can modify (the
+   translator accepts in-place mutation only on copies the function made itself) *)
+Theorem C10_submit_effective :
+  forall wait td rd ek ecores act q sp mc mw hl f d,
+    assoc "resource_dict" td = Some (sdict rd) ->
+    assoc "future" (adel "resource_dict" td) = Some f ->
+    assoc "cores" ek = Some (VInt ecores) ->
+    cores_is_int rd -> threads_is_int rd -> NoDup (keys td) ->
+    let slots := (int_or ecores (assoc "cores" (eff_rd ecores rd)) * int_or 1 (assoc "threads_per_core" rd))%Z in
+    wait act (VInt slots) mc mw = Ok (VDict d) ->
+    _submit_function_to_separate_process wait (sdict td) act q sp (sdict ek) mc mw hl
+    = Ok (sdict (aupdate (aupdate ek (eff_rd ecores rd)) (forced q sp hl)), VInt slots,
+          VDict (dict_set_l f (VInt slots) d)).
+Proof. exact submit_returns. Qed.
+Print Assumptions C10_submit_effective.
